@@ -128,20 +128,83 @@ class PollRun:
         return None
 
     def cond(self, what, node):
-        # the continuation bit and payload of abstract bytes
-        if what[0] == "cmp":
-            op, a, b = what[1], what[2], what[3]
-            for x, y in ((a, b), (b, a)):
-                if isinstance(x, tuple) and len(x) == 2 and x[0] == "sym" and isinstance(x[1], tuple) and x[1][:2] == ("bin", "BitAnd"):
-                    operands = x[1][2:]
-                    if 128 in operands and isinstance(y, int):
-                        other = [o for o in operands if o != 128][0]
-                        if isinstance(other, tuple) and other[0] == "sym" and isinstance(other[1], tuple) and other[1][0] == "byte":
-                            bit = 128 if other[1][2] else 0
-                            return {"Eq": bit == y, "Ne": bit != y, "Gt": bit > y, "Lt": bit < y, "Ge": bit >= y, "Le": bit <= y}[op]
-        if what[0] == "try-ok":
-            return True
+        return byte_cond(what, node)
+
+
+def _is_byte(x):
+    return isinstance(x, tuple) and len(x) == 2 and x[0] == "sym" and isinstance(x[1], tuple) and len(x[1]) == 3 and x[1][0] == "byte"
+
+
+def _unsym(x):
+    return x[1] if isinstance(x, tuple) and len(x) == 2 and x[0] == "sym" else x
+
+
+def byte_cond(what, node):
+    """Decisions on an abstract byte byte(n, cont) whose continuation bit is known and whose low seven bits are
+    symbolic: `b & 0x80` against 0/128, `b >> 7` (canonically b / 128) against 0/1, `b` itself against 127/128."""
+    if what[0] == "cmp":
+        op, a, b = what[1], what[2], what[3]
+        flip = {"Lt": "Gt", "Gt": "Lt", "Le": "Ge", "Ge": "Le", "Eq": "Eq", "Ne": "Ne"}
+        for x, y, o in ((a, b, op), (b, a, flip.get(op, op))):
+            if not isinstance(y, int) or isinstance(y, bool):
+                continue
+            t = _unsym(x)
+            while isinstance(t, tuple) and t and t[0] == "cast":
+                t = _unsym(t[1])
+            val = None
+            if isinstance(t, tuple) and len(t) == 4 and t[0] == "bin":
+                l = t[2]
+                while isinstance(_unsym(l), tuple) and _unsym(l) and _unsym(l)[0] == "cast":
+                    l = _unsym(l)[1]
+                if _is_byte(l) and t[1] == "BitAnd" and t[3] == 128:
+                    val = 128 if l[1][2] else 0
+                elif _is_byte(l) and t[1] == "Div" and t[3] == 128:
+                    val = 1 if l[1][2] else 0
+            elif _is_byte(x) or (isinstance(t, tuple) and len(t) == 3 and t[0] == "byte"):
+                bt = t if (isinstance(t, tuple) and t[0] == "byte") else x[1]
+                # the byte itself: only thresholds that separate exactly on the continuation bit are decidable
+                if (o in ("Ge", "Lt") and y == 128) or (o in ("Gt", "Le") and y == 127):
+                    hi = bool(bt[2])
+                    return {"Ge": hi, "Gt": hi, "Lt": not hi, "Le": not hi}[o]
+            if val is not None:
+                return {"Eq": val == y, "Ne": val != y, "Gt": val > y, "Lt": val < y, "Ge": val >= y, "Le": val <= y}[o]
+    if what[0] == "try-ok":
+        return True
+    return None
+
+
+def digit_form(term):
+    """Canonical form of a var-int accumulator: {atom: multiplier}. `|` and `+` are both read as sums (the digits occupy
+    disjoint bit ranges), `<< k` / `* 2^k` as multipliers, `b & 0x7F` / `b % 128` as the atom ('low7', b); widening casts vanish.
+    Returns None when the term has another shape."""
+    t = _unsym(vkey(term)) if not isinstance(term, tuple) else _unsym(term)
+    if isinstance(t, int) and not isinstance(t, bool):
+        return {1: t} if t else {}
+    if isinstance(t, tuple) and t and t[0] == "cast":
+        return digit_form(t[1])
+    if isinstance(t, tuple) and len(t) == 4 and t[0] == "bin":
+        op, a, b = t[1], t[2], t[3]
+        if op in ("Add", "BitOr"):
+            da, db = digit_form(a), digit_form(b)
+            if da is None or db is None:
+                return None
+            out = dict(da)
+            for k, v in db.items():
+                out[k] = out.get(k, 0) + v
+            return out
+        if op in ("Mul", "Shl") and isinstance(b, int):
+            da = digit_form(a)
+            if da is None:
+                return None
+            m = b if op == "Mul" else (1 << b)
+            return {k: v * m for k, v in da.items()}
+        if (op == "Rem" and b == 128) or (op == "BitAnd" and b == 127):
+            inner = _unsym(a)
+            while isinstance(inner, tuple) and inner and inner[0] == "cast":
+                inner = _unsym(inner[1])
+            return {("low7", inner): 1}
         return None
+    return {("atom", t): 1}
 
 
 def byte(n, cont):
@@ -149,25 +212,12 @@ def byte(n, cont):
 
 
 def _acc_ok(term, acc, b, k):
-    """term == acc | ((b & 0x7F) << 7k)  (| or +, operands in either order)."""
-    def unsym(x):
-        return x[1] if isinstance(x, tuple) and len(x) == 2 and x[0] == "sym" else x
-    t = unsym(vkey(term))
-    if not (isinstance(t, tuple) and len(t) == 4 and t[0] == "bin" and t[1] in ("BitOr", "Add")):
-        return False
-    ops = [t[2], t[3]]
-    acck = vkey(acc)
-    if acck not in ops:
-        return False
-    ops.remove(acck)
-    sh = unsym(ops[0])
-    if not (isinstance(sh, tuple) and len(sh) == 4 and sh[:2] == ("bin", "Shl") and sh[3] == 7 * k):
-        return False
-    m = unsym(sh[2])
-    if not (isinstance(m, tuple) and len(m) == 4 and m[:2] == ("bin", "BitAnd")):
-        return False
-    mo = [m[2], m[3]]
-    return 127 in mo and vkey(b) in mo
+    """term == acc + ((b & 0x7F) << 7k) in any spelling (| or +, << or *, & 0x7F or % 128, either operand order)."""
+    d = digit_form(term)
+    want = {("atom", _unsym(vkey(acc))): 1, ("low7", _unsym(vkey(b))): 128 ** k}
+    if isinstance(acc, int) and acc == 0:
+        want = {("low7", _unsym(vkey(b))): 128 ** k}
+    return d == want
 
 
 def _env_vars(F, fid, names):
@@ -402,99 +452,59 @@ def _find_loop(F, fid):
 
 
 def varint_reader_rules(F, R):
-    """decode_var_int: transfer function of the loop body for index k in 0..3 and continuation bit:
-    accumulates (b & 0x7F) << 7k; no continuation -> returns (value, k + 1); continuation -> k + 1 while
-    k < 3, else InvalidVarByteInt. Equal to the poll header state machine (P-header)."""
+    """decode_var_int evaluated as a whole on abstract byte sequences (low seven bits symbolic, continuation bit known):
+    k continuation bytes followed by a final byte, k = 0..3, return Ok((sum of (b_i & 0x7F) * 128^i, k + 1)) after reading
+    exactly k + 1 single bytes; four continuation bytes are InvalidVarByteInt after exactly four reads. Independent of
+    how the loop is spelled; equal to the poll header state machine (P-header) because both equal this specification."""
     fid = "common::utils::decode_var_int"
-    b, loop = _find_loop(F, fid)
-    # role discovery: evaluate the statements before the loop, then one iteration with continuation
-    def run(pre, cont, kval=None, roles=None):
-        cur = byte(1, cont)
-        calls = []
+    if fid not in F.fns:
+        raise AnchorLost(fid)
+    n = 0
+    for conts in ([False], [True, False], [True, True, False], [True, True, True, False], [True, True, True, True, True, True]):
+        n += 1
+        reads = []
 
         def hook(d, res, args, node, env):
             r = res or d
-            if node["fn"].get("name") == "read_exact":
-                tgt = strip(node["args"][1])
-                while tgt.get("k") == "Call":
-                    tgt = strip(tgt["args"][0])
-                if tgt.get("k") == "Var":
-                    env[tgt["var"]["id"]] = cur
-                calls.append("read")
-                return ok(UNIT)
-            if r == "common::utils::read_u8":
-                calls.append("read")
+            name = node["fn"].get("name")
+            if name == "read_exact" or r == "common::utils::read_u8":
+                k = len(reads)
+                if k >= len(conts):
+                    raise Undecided("more reads than supplied bytes")
+                cur = byte(k, conts[k])
+                if name == "read_exact":
+                    buf = args[1] if len(args) > 1 else None
+                    size = len(buf.items) if isinstance(buf, Tup) else 1
+                    reads.append(size)
+                    tgt = strip(node["args"][1])
+                    while tgt.get("k") == "Call":
+                        tgt = strip(tgt["args"][0])
+                    if tgt.get("k") == "Var":
+                        env[tgt["var"]["id"]] = Tup([cur]) if isinstance(buf, Tup) else cur
+                    return ok(UNIT)
+                reads.append(1)
                 return ok(cur)
             return None
-        pr = PollRun.__new__(PollRun)
-        pe = PE(F, call_hook=hook, cond_hook=lambda w, n_: PollRun.cond(pr, w, n_), fuel=40)
-        env = dict(pre)
         try:
-            pe.ev(loop["body"] if loop["k"] == "Loop" else loop, env)
-            out = ("continue",)
-        except _Cont:
-            out = ("continue",)
-        except _Brk:
-            out = ("break",)
-        except _Ret as r:
-            out = ("return", r.v)
+            r = PE(F, call_hook=hook, cond_hook=byte_cond, fuel=80).call_fn(fid, [Sym("READER")])
+            kk = result_kind(r)
         except Undecided as e:
-            out = ("undecided", str(e))
-        return out, env, cur, calls
-    # environment after the prologue (locals initialised to 0)
-    pre = {}
-    pe0 = PE(F)
-    body_blk = None
-    for n in walk_all(b):
-        if n.get("k") == "Block" and (any((s.get("e") is loop) for s in n.get("stmts", [])) or n.get("expr") is loop):
-            body_blk = n
-    if body_blk is None:
-        raise AnchorLost("decode_var_int: block containing the loop")
-    for s in body_blk["stmts"]:
-        if s.get("e") is loop:
-            break
-        if s["k"] == "Let":
-            try:
-                v = pe0.ev(s["init"], pre) if s.get("init") is not None else Sym("u")
-                pe0.match(s["pat"], v, pre)
-            except Undecided:
-                pass
-    out, env1, cur, _ = run(pre, True)
-    idx_id = [k for k in env1 if pre.get(k) == 0 and env1[k] == 1]
-    acc_id = [k for k in env1 if pre.get(k) == 0 and isinstance(env1[k], Sym) and env1[k] != cur]
-    if len(idx_id) != 1 or len(acc_id) != 1:
-        raise AnchorLost("decode_var_int: cannot identify the index (%s) and accumulator (%s) variables" % (idx_id, acc_id))
-    idx_id, acc_id = idx_id[0], acc_id[0]
-    ACC = Sym("ACC")
-    tail = body_blk.get("expr") if body_blk.get("expr") is not loop else None
-    for k in range(4):
-        for cont in (False, True):
-            pre2 = dict(pre)
-            pre2[idx_id] = k
-            pre2[acc_id] = ACC
-            out, env, cur, calls = run(pre2, cont)
-            key = "k%d/%s" % (k, "cont" if cont else "last")
-            R.check(calls == ["read"], "V-reader", key + "/one-read", "an iteration reads %d bytes" % len(calls), where=fid)
-            if not cont:
-                good = out[0] in ("break", "return") and _acc_ok(env[acc_id], ACC, cur, k)
-                # the value returned: (acc, k + 1)
-                if out[0] == "break" and tail is not None:
-                    try:
-                        rv = PE(F).ev(tail, env)
-                    except Undecided:
-                        rv = None
-                else:
-                    rv = out[1] if out[0] == "return" else None
-                kk = result_kind(rv) if rv is not None else ("?",)
-                good = good and kk[0] == "ok" and isinstance(kk[1], Tup) and kk[1].items[1] == k + 1 and _acc_ok(kk[1].items[0], ACC, cur, k)
-                R.check(good, "V-reader", key, "last length byte at index %d: accumulator %r, result %r (expected (acc | (b & 0x7F) << %d, %d))" % (k, env.get(acc_id), rv, 7 * k, k + 1), where=fid)
-            elif k < 3:
-                good = out == ("continue",) and env[idx_id] == k + 1 and _acc_ok(env[acc_id], ACC, cur, k)
-                R.check(good, "V-reader", key, "continuation byte at index %d: outcome %s, index %r, accumulator %r" % (k, out[:1], env.get(idx_id), env.get(acc_id)), where=fid)
-            else:
-                kk = result_kind(out[1]) if out[0] == "return" else ("?",)
-                good = kk[0] == "err" and isinstance(kk[1], Adt) and kk[1].variant == "InvalidVarByteInt"
-                R.check(good, "V-reader", key, "a fifth length byte gives %s (expected InvalidVarByteInt)" % (out,), where=fid)
+            kk = ("undecided", str(e))
+        key = "%d-byte%s" % (len(conts) if conts[-1] is False else 5, "" if conts[-1] is False else "-overlong")
+        if conts[-1] is False:
+            k = len(conts)
+            want = {("low7", _unsym(vkey(byte(i, conts[i])))): 128 ** i for i in range(k)}
+            good = kk[0] == "ok" and isinstance(kk[1], Tup) and len(kk[1].items) == 2 and kk[1].items[1] == k and \
+                digit_form(kk[1].items[0]) == want and reads == [1] * k
+            R.check(good, "V-reader", key,
+                    "decode_var_int on %d continuation byte(s) + a final byte returns %r after reads of sizes %s "
+                    "(specified: Ok((sum of (b_i & 0x7F) << 7i, %d)) after %d one-byte reads)" % (k - 1, kk[1] if len(kk) > 1 else kk, reads, k, k), where=fid)
+        else:
+            good = kk[0] == "err" and isinstance(kk[1], Adt) and kk[1].variant == "InvalidVarByteInt" and reads == [1, 1, 1, 1]
+            R.check(good, "V-reader", key,
+                    "decode_var_int on four continuation bytes gives %r after %d reads (specified: InvalidVarByteInt after four reads)" % (
+                        kk[1] if len(kk) > 1 else kk, len(reads)), where=fid)
+    R.floor("V-reader", "byte patterns", n, 5)
 
 
 def varint_writer_rules(F, R):
